@@ -35,6 +35,7 @@ def main():
     ap.add_argument("dir")
     ap.add_argument("--tier", default="quick")
     ap.add_argument("--no-confirm", action="store_true")
+    ap.add_argument("--also", default="", help="comma-separated other properties whose checks are run against the change too")
     ap.add_argument("--in-repo", action="store_true",
                     help="apply the patch to /repo itself for the check run (and undo it afterwards)")
     a = ap.parse_args()
@@ -82,6 +83,17 @@ def main():
                                 else ("failing-input" if viol else "none"))
         result["check_tier"] = a.tier
         result["check_summary"] = c.stdout.strip().splitlines()[-1] if c.stdout.strip() else ""
+        also = []
+        for other in [x for x in a.also.split(",") if x]:
+            c2 = sh([PY, str(VERIF / "harness" / "check.py"), other, "--tier", a.tier], cwd=VERIF, env=cenv, timeout=7200)
+            v2 = [l for l in c2.stdout.splitlines() if l.startswith("VIOLATION")]
+            kind = ("no-failing-input-found" if v2 and all("no-failing-input-found" in v for v in v2) else ("failing-input" if v2 else "none"))
+            if c2.returncode == 1 and v2:
+                also.append(f"check {other} ({a.tier}, {kind})")
+            viol += v2
+            result[f"also_{other}"] = {"rc": c2.returncode, "kind": kind}
+        if also:
+            meta["also_caught_by"] = "; ".join(also)
         meta.setdefault("evaluation", {}).update(result)
         (d / "meta.json").write_text(json.dumps(meta, indent=1))
         print(json.dumps({k: v for k, v in result.items() if k != "demo_with_patch_tail"}, indent=1))
